@@ -122,6 +122,7 @@ class FakeSock:
         self.log = []
         self.budget = budget if budget is not None else 4 * len(source) + 64
         self.closed_seen = False
+        self.visit = None  # optional hook: called at fresh choice points; True = already explored
 
     def recv(self, bufsize: int) -> bytes:
         if len(self.log) >= self.budget:
@@ -156,6 +157,10 @@ class FakeSock:
         menu = list(range(top, 0, -1))  # default: everything that fits
         if self.nfaults < self.max_faults:
             menu += ["timeout", "oserror"]
+        if self.visit is not None and len(self.ch.trace) >= len(self.ch.prefix) and self.visit():
+            from .bfs import Pruned  # pylint: disable=import-outside-toplevel
+
+            raise Pruned()
         c = self.ch.choose(len(menu), f"recv({bufsize})@{self.pos}")
         ans = menu[c]
         if ans in ("timeout", "oserror"):
